@@ -32,13 +32,19 @@ def net : P (Net Rat) := do
 def optNet : P (Option (Net Rat)) := do
   if (← nat) = 0 then pure none else pure (some (← net))
 
-def dataFns : P (List (String × DataFn Rat)) := many (do
-  let n ← next
-  let tag ← next
-  match tag with
-  | "fn" => do pure (n, DataFn.fn (← ufun))
-  | "pre" => do pure (n, DataFn.pre (← table))
-  | _ => throw s!"datafn:{tag}")
+def userFns : P (List (String × UFun Rat)) := many (do let n ← next; let u ← ufun; pure (n, u))
+
+/-- `<static 0|1> <resample interval: inf|k> <point sets the sampler returned at construction, one per data function>` -/
+def preSets : P (Option (List (List (List Rat)))) := do
+  let static ← bool
+  let it ← next
+  let interval ← (match it with
+    | "inf" => pure none
+    | t => match t.toNat? with
+      | some k => pure (some k)
+      | none => throw s!"interval:{t}" : P (Option Nat))
+  let sets ← many table
+  if shouldPreEval static interval then pure (some sets) else pure none
 
 def errKind : P ErrKind := do
   match (← next) with
@@ -72,10 +78,11 @@ def step (line : String) : String :=
     let op ← next
     match op with
     | "sm" => do
-      let sp ← space; let rows ← table; let n ← optNet; let res ← ufun; let dfs ← dataFns
+      let sp ← space; let rows ← table; let n ← optNet; let res ← ufun; let ufs ← userFns; let pre ← preSets
       let ps ← named; let ek ← errKind; let rk ← redKind
-      let c : SMCond Rat := { net := n, resid := res, dataFns := dfs, params := ps, err := ek, red := rk }
       return showResult (do
+        let dfs ← setupDataFns sp pre ufs
+        let c : SMCond Rat := { net := n, resid := res, dataFns := dfs, params := ps, err := ek, red := rk }
         let bound ← rows.zipIdx.mapM fun ri => do
           let a ← rowArgs c sp rows.length ri.2 ri.1
           c.resid.params.mapM (bindArg c.resid.defaults a)
@@ -106,11 +113,13 @@ def step (line : String) : String :=
     | "per" => do
       let psp ← space; let bsp ← space
       let rows ← many (do let a ← many rat; let b ← many rat; let c ← many rat; pure (a, b, c))
-      let n ← net; let res ← ufun; let ld ← dataFns; let rd ← dataFns
+      let n ← net; let res ← ufun; let ufs ← userFns; let preL ← preSets; let preR ← preSets
       let ps ← named; let ek ← errKind; let rk ← redKind
-      let c : PerCond Rat := { net := n, resid := res, perSpace := psp, leftData := ld, rightData := rd,
-                               params := ps, err := ek, red := rk }
       return showResult (do
+        let ld ← setupDataFns (psp ++ bsp) preL ufs
+        let rd ← setupDataFns (psp ++ bsp) preR ufs
+        let c : PerCond Rat := { net := n, resid := res, perSpace := psp, leftData := ld, rightData := rd,
+                                 params := ps, err := ek, red := rk }
         let bound ← rows.zipIdx.mapM fun ri => do
           let a ← perRowArgs c bsp rows.length ri.2 ri.1.1 ri.1.2.1 ri.1.2.2
           c.resid.params.mapM (bindArg c.resid.defaults a)
@@ -123,10 +132,11 @@ def step (line : String) : String :=
       let n ← net
       let fso ← (do if (← nat) = 0 then pure none else do
                       let sp ← space; let g ← ufun; pure (some (sp, g)) : P (Option (SpaceL × UFun Rat)))
-      let res ← ufun; let dfs ← dataFns; let ps ← named; let old ← bool
-      let c : DONCond Rat := { net := n, fsOut := fso, resid := res, dataFns := dfs, params := ps,
-                               sumOverLocations := old }
+      let res ← ufun; let ufs ← userFns; let pre ← preSets; let ps ← named; let old ← bool
       return showResult (do
+        let dfs ← setupDataFns xsp pre ufs
+        let c : DONCond Rat := { net := n, fsOut := fso, resid := res, dataFns := dfs, params := ps,
+                                 sumOverLocations := old }
         let bound ← prows.mapM fun prow => xrows.zipIdx.mapM fun xj => do
           let a ← donRowArgs c psp xsp xrows.length xj.2 prow xj.1
           c.resid.params.mapM (bindArg c.resid.defaults a)
